@@ -51,7 +51,7 @@ func env(goos string) []string {
 		}
 		e = append(e, kv)
 	}
-	e = append(e, "GOFLAGS=-mod=mod", "GOPROXY=off", "GOSUMDB=off", "GOTOOLCHAIN=local", "GOWORK=off", "CGO_ENABLED=0")
+	e = append(e, "GOFLAGS=-mod=mod -trimpath", "GOPROXY=off", "GOSUMDB=off", "GOTOOLCHAIN=local", "GOWORK=off", "CGO_ENABLED=0")
 	if goos != "" {
 		e = append(e, "GOOS="+goos, "GOARCH=amd64")
 	}
